@@ -123,6 +123,10 @@ pub struct Case {
     /// also call check_claim(exp|nbf = the token's own value) on the default parser: the time check must still apply
     #[serde(default)]
     pub also_check_claim: bool,
+    /// other members placed around the top-level exp/nbf that must not matter (0 = none): nested objects and arrays whose
+    /// members are NAMED exp/nbf with the opposite verdict, strings that contain the member syntax, look-alike keys
+    #[serde(default)]
+    pub surround: u8,
 }
 
 fn now_secs() -> i64 {
@@ -168,6 +172,32 @@ pub fn run_case(c: &Case, r: &mut Report, prop: &str) {
     }
     if let Some(v) = &nv {
         obj.insert("nbf".into(), v.clone());
+    }
+    match c.surround {
+        0 => {}
+        1 => {
+            obj.insert("previous".into(), json!({"exp": "2001-01-01T00:00:00Z", "nbf": "2999-01-01T00:00:00Z", "iat": "2999-01-01T00:00:00Z"}));
+        }
+        2 => {
+            obj.insert("history".into(), json!([{"nbf": "2999-01-01T00:00:00Z"}, {"nbf": 7}, {"exp": "2001-01-01T00:00:00Z"}, {"exp": null, "nbf": null}]));
+            obj.insert("zz".into(), json!({"a": {"exp": "never", "nbf": "never"}}));
+        }
+        3 => {
+            obj.insert("note".into(), json!("\"exp\":\"2001-01-01T00:00:00Z\",\"nbf\":\"2999-01-01T00:00:00Z\""));
+            obj.insert("exp ".into(), json!("2001-01-01T00:00:00Z"));
+            obj.insert("nbf2".into(), json!("2999-01-01T00:00:00Z"));
+            obj.insert("EXP".into(), json!(0));
+            obj.insert("Nbf".into(), json!("2999-01-01T00:00:00Z"));
+            obj.insert("\"nbf\":".into(), json!("\"exp\":"));
+        }
+        _ => {
+            for i in 0..120 {
+                obj.insert(format!("claim-{:03}", i), json!({"i": i, "s": "x".repeat(i % 17)}));
+            }
+            obj.insert("aud".into(), json!("nbf"));
+            obj.insert("sub".into(), json!("exp"));
+            obj.insert("iat".into(), json!("2999-01-01T00:00:00Z"));
+        }
     }
     let payload = Value::Object(obj).to_string();
     let expect = match (ee, ne) {
@@ -331,9 +361,9 @@ pub fn build_cases(prop: &str, tier: &str, seed: u64, pools: &Pools) -> Vec<Case
     let mk = |p: P, v: Val, class: &str, other: Val| -> Case {
         let key = pools.key(p, 0);
         if is_exp {
-            Case { p, key, exp: v, nbf: other, class: class.to_string(), also_check_claim: false }
+            Case { p, key, exp: v, nbf: other, class: class.to_string(), also_check_claim: false, surround: 0 }
         } else {
-            Case { p, key, exp: other, nbf: v, class: class.to_string(), also_check_claim: false }
+            Case { p, key, exp: other, nbf: v, class: class.to_string(), also_check_claim: false, surround: 0 }
         }
     };
     // full rendering space on the cheap protocols
@@ -435,9 +465,9 @@ pub fn build_cases(prop: &str, tier: &str, seed: u64, pools: &Pools) -> Vec<Case
                             Val::Time { when, nanos, frac, .. } => Val::Time { when: when.clone(), nanos: *nanos, off_min: off, frac: *frac, style: Style::Strict },
                             o => o.clone(),
                         };
-                        cases.push(Case { p, key: pools.key(p, 0), exp: shift(&e), nbf: shift(&n), class: format!("grid exp={} nbf={}", en, nn), also_check_claim: false });
+                        cases.push(Case { p, key: pools.key(p, 0), exp: shift(&e), nbf: shift(&n), class: format!("grid exp={} nbf={}", en, nn), also_check_claim: false, surround: 0 });
                         if off == 0 {
-                            cases.push(Case { p, key: pools.key(p, 0), exp: shift(&e), nbf: shift(&n), class: format!("grid+check_claim exp={} nbf={}", en, nn), also_check_claim: true });
+                            cases.push(Case { p, key: pools.key(p, 0), exp: shift(&e), nbf: shift(&n), class: format!("grid+check_claim exp={} nbf={}", en, nn), also_check_claim: true, surround: 0 });
                         }
                     }
                 }
@@ -470,6 +500,19 @@ pub fn build_cases(prop: &str, tier: &str, seed: u64, pools: &Pools) -> Vec<Case
         })
         .collect();
     cases.extend(extra2);
+    // every 23rd case once more with other members around the time claims that must not matter
+    let extra3: Vec<Case> = cases
+        .iter()
+        .enumerate()
+        .filter(|(i, _)| i % 23 == 5)
+        .map(|(i, c)| {
+            let mut d = c.clone();
+            d.surround = 1 + ((i / 23) % 4) as u8;
+            d.class = format!("{}+surround{}", c.class, d.surround);
+            d
+        })
+        .collect();
+    cases.extend(extra3);
     cases
 }
 
